@@ -4,6 +4,7 @@
   No property statements here.
 -/
 import SLV.Refine.Lift
+import SLV.Refine.ClampLemmas
 import SLV.Refine.MinLemmas
 import SLV.Model.Cond
 import SLV.Props.C09
@@ -415,6 +416,12 @@ theorem deduceOf_lift (hn : 0 < n) (h : Hyp bx ax ux cb cu ay) :
   simp only [uyhx_lift hn h]
   simp only [condTab_get, XQ.sub_fin, XQ.mul_fin, sumIter_ofFn_fin, uRes_eq h, Opinion.projection,
     C09_projection h.wfx, condP_get h, liftT_getElem]
+  -- repair 9ec2d8b: the clamps are the identity, `uRes ≥ 0` and every `bRes y ≥ 0`
+  have hu : max (uhat ax cb cu ay * ux + ∑ x, bx x * cu x) 0 = uRes bx ax ux cb cu ay :=
+    max_eq_left (uRes_nonneg hn h)
+  have hb : ∀ y : Fin m, max (∑ i, (bx i + ax i * ux) * Pc cb cu ay i y - ay y * uRes bx ax ux cb cu ay) 0
+      = bRes bx ax ux cb cu ay y := fun y => max_eq_left (bRes_nonneg hn h y)
+  simp only [XQ.clamp_fin, hu, XQ.sub_fin, XQ.mul_fin, hb]
   show Opinion.mk' (Simplex.normalized (liftT (bRes bx ax ux cb cu ay))
     (XQ.fin (uRes bx ax ux cb cu ay))) (liftT ay) = _
   unfold Simplex.normalized Opinion.mk'
